@@ -76,7 +76,7 @@ def run(tier, seed, drv):
                 if model.model_observations(rep_n) != model.model_observations(rep_f) or rep_n.get("err") or rep_f.get("err"):
                     res.diverge(f"model: nested and flattened runs differ ({rep_n.get('err')}, {rep_f.get('err')})", case)
                 res.count("model-nested-vs-flat")
-            SC.check_run(scn, rn, drv, res, monitors_on=("inputs_latest", "callbacks", "tick_times") + (("interrupts",) if scn.get("stims") else ()),
+            SC.check_run(scn, rn, drv, res, monitors_on=("inputs_latest", "callbacks", "tick_times", "system_output") + (("interrupts",) if scn.get("stims") else ()),
                          corr=("ticker",) if has_cost else ("sim", "ticker"), case_extra=case)
             SC.check_run(flat, rf, drv, res, monitors_on=(), corr=() if has_cost else ("sim",), case_extra={"scenario": flat, "bus": b})
             # an interrupt that arrives while a tick is in progress may be served by that very tick in one
